@@ -146,8 +146,16 @@ class Repo:
             for a in st.names:
                 mi.imports[a.asname or a.name.split(".")[0]] = ("module", a.name if a.asname else a.name.split(".")[0])
         elif isinstance(st, ast.ImportFrom):
+            modname = st.module or ""
+            if st.level:
+                # relative import: resolve against the package of this module
+                pkg = mi.modname.split(".")
+                if not mi.relpath.endswith("__init__.py"):
+                    pkg = pkg[:-1]
+                pkg = pkg[: len(pkg) - (st.level - 1)] if st.level > 1 else pkg
+                modname = ".".join(pkg + ([st.module] if st.module else []))
             for a in st.names:
-                mi.imports[a.asname or a.name] = ("from", st.module or "", a.name)
+                mi.imports[a.asname or a.name] = ("from", modname, a.name)
         elif isinstance(st, ast.Assign) and len(st.targets) == 1 and isinstance(st.targets[0], ast.Name):
             mi.globals_[st.targets[0].id] = st.value
         elif isinstance(st, ast.AnnAssign) and isinstance(st.target, ast.Name) and st.value is not None:
